@@ -600,7 +600,11 @@ class Run:
                 except clk.ClockError:       # routine playing on this very clock: a documented refusal, not an error
                     pass
             elif k == 'nolock':
-                self.retime(op[1], who, lock=PROXIES)
+                # as the main thread of a script does it: WITHOUT taking the main lock first (the entry point
+                # itself synchronises where it has to)
+                self.retime(op[1], who, lock=False)
+            elif k == 'slow':
+                time.sleep(op[1] / 1000.0)       # a slow body: the caller (a task) keeps the main lock
             elif k == 'via':
                 vc = {'sys': clk.SystemClock, 'app': clk.AppClock, 'aux': self.aux}[op[1]]
                 inner, tag = op[2], 'via-' + op[1]
@@ -657,7 +661,8 @@ class Run:
                 reads, TL.retime_reads = TL.retime_reads, None
                 # inside a task the main thread's time is frozen (the reads are ignored by the library);
                 # etempo always anchors at the physical present
-                if op[0] == 'etempo' or not main._in_awake_call:
+                in_task = who.startswith('task') or who.startswith('via') or who == 'osc'
+                if op[0] == 'etempo' or not in_task:
                     anchor = reads[-1] if reads else frozen
                 else:
                     anchor = frozen
